@@ -422,7 +422,7 @@ impl Check for RwCheck {
     }
     fn budget(&self, tier: Tier) -> u64 {
         match tier {
-            Tier::Quick => 3_000,
+            Tier::Quick => 12_000,
             Tier::Thorough => 80_000,
         }
     }
@@ -729,7 +729,7 @@ impl Check for StopCheck {
     }
     fn budget(&self, tier: Tier) -> u64 {
         match tier {
-            Tier::Quick => 4_000,
+            Tier::Quick => 30_000,
             Tier::Thorough => 100_000,
         }
     }
